@@ -11,6 +11,9 @@
 (*   independence.  Documents are described by SHAPE DESCRIPTORS (which     *)
 (*   optional parts are present, which variant each part takes); the        *)
 (*   harness builds the concrete document of a descriptor.                  *)
+(*   Damage: a document may also reach the parser with one leaf altered so   *)
+(*   that a validating field becomes invalid (DamageKinds); whatever the    *)
+(*   verdict on it, it is the same on every channel.                        *)
 (* Part C - attestation schemas: closed field sets of the statement and     *)
 (*   predicate formats; recognition must yield at most one version, and a   *)
 (*   v0.1 statement's declared predicate type must name the format of the   *)
@@ -98,6 +101,16 @@ WDone == pc = "done"
 \* the machine and the functional grammar agree; accepted rules round-trip
 MachineAgrees == WDone => ((res = "ok") <=> ParseRule(toks).ok)
 RuleRoundTrip == (WDone /\ res = "ok") => UnparseRule(acc) = toks /\ ParseRule(UnparseRule(acc)) = acc
+
+-----------------------------------------------------------------------------
+(* Part B: channels, spellings, damages *)
+Channels == {"str", "slice", "reader", "value", "json_slice", "json_reader", "json_tree", "jsonpretty_reader"}
+Spellings6 == {"plain", "ws", "uescape", "trailing_garbage", "concatenated", "truncated"}
+\* one leaf of the document: string shorter / longer / empty, number negative / beyond 32 bits, member removed
+DamageKinds == {"shorter", "longer", "empty", "negative", "huge", "removed"}
+\* C17: the verdict (and value) is a function of the content alone
+ChannelIndependent(verdictOf(_, _)) ==
+  \A content \in {"asis"} \cup DamageKinds, c1, c2 \in Channels : verdictOf(content, c1) = verdictOf(content, c2)
 
 -----------------------------------------------------------------------------
 (* Part C: attestation schemas *)
